@@ -26,6 +26,14 @@ class Cleanup:
     """_cleanup_intermediate_integrals on an opaque table:
     out[d,ma,la,mb,lb] = sum_{pa,pb} ca[pa,ma] na[la,pa] cb[pb,mb] nb[lb,pb] prod_ax T[o[d,ax], b[lb,ax], a[la,ax], ax, pb, pa]"""
 
+    fp = True  # cross-check: the same contract on the unmodified float64 code at sampled inputs (bounded)
+
+    def fp_shapes(self, tier):
+        sh = self.shapes(tier)
+        step = max(1, len(sh) // (6 if tier == "quick" else 24))
+        return sh[::step][:(6 if tier == "quick" else 24)]
+
+
     function = "gbasis.integrals._moment_int._cleanup_intermediate_integrals"
     sparse = True
 
@@ -296,6 +304,14 @@ class OverlapInline:
     matrices): every diagonal element of overlap_integral is exactly 1 for Cartesian, spherical and mixed
     bases; the matrix is symmetric; overlap_integral_asymmetric(b1, b2) is the off-diagonal block of the
     overlap of the union"""
+
+    fp = True  # cross-check: the same contract on the unmodified float64 code at sampled inputs (bounded)
+
+    def fp_shapes(self, tier):
+        sh = self.shapes(tier)
+        step = max(1, len(sh) // (6 if tier == "quick" else 24))
+        return sh[::step][:(6 if tier == "quick" else 24)]
+
 
     function = "gbasis.integrals.overlap.overlap_integral / overlap_asymm.overlap_integral_asymmetric (inline)"
 
